@@ -15,8 +15,16 @@
 //!        1 = "race": commands are issued without barriers (op 5 n = n yields, n = 0 a barrier),
 //!            H1 deferral of remoc's own tasks from `seed`; oracle only;
 //!        2 = "mt": the F5 race (DESIGN section 6) on a multi-thread runtime, `nops` iterations,
-//!            wall-clock timeout; oracle only.
-//!   ops  0 acquire read | 1 acquire write | 2 release read guard | 3 commit arg | 4 drop write guard
+//!            wall-clock timeout; oracle only;
+//!        3 = "cbar": as kind 0 (a barrier after every command) but with CANCELLATIONS (op 6) of
+//!            pending requests (reads and writes); oracle only;
+//!        4 = "wbar": as kind 0 with cancellations of pending WRITE requests only (op 6 on a client
+//!            whose read is pending is skipped); compared with the model by trace acceptance like
+//!            kind 0: the model side represents a cancelled write request by a ghost client that
+//!            drops its guard at once (Run/RunRwLock.v, `accept_g`).
+//!   ops  0 acquire read | 1 acquire write | 2 release read guard | 3 commit arg | 4 drop write guard |
+//!        6 cancel the client's pending read()/write() (its future is dropped where it stands;
+//!          kinds 1, 3 and 4 only)
 //!        (a command that does not fit the client's status is skipped, as in the model)
 //! Observation per client: 0 idle | 1 read guard (value) | 2 write guard (value) | 3 read pending |
 //!   4 write pending | 5 commit pending | 6 error.
@@ -57,6 +65,10 @@ enum Ev {
     RespC(usize),
     DropW(usize),
     Err(usize),
+    /// the pending read() future of the client was dropped
+    CancelR(usize),
+    /// the pending write() future of the client was dropped
+    CancelW(usize),
 }
 
 #[derive(Clone, Copy, Debug)]
@@ -66,6 +78,19 @@ enum Cmd {
     Release,
     Commit(u64),
     DropW,
+    Cancel,
+}
+
+/// Completes when a `Cancel` command arrives (no other command fits a pending request: the harness
+/// does not send any); false = the command channel is closed.
+async fn wait_cancel(rx: &mut mpsc::UnboundedReceiver<Cmd>) -> bool {
+    loop {
+        match rx.recv().await {
+            Some(Cmd::Cancel) => return true,
+            Some(_) => continue,
+            None => return false,
+        }
+    }
 }
 
 struct Shared {
@@ -92,7 +117,23 @@ async fn actor(c: usize, lock: RwLock<u64>, mut rx: mpsc::UnboundedReceiver<Cmd>
             Cmd::Read => {
                 sh.ev(Ev::InvR(c));
                 sh.set(c, St::PendR);
-                match lock.read().await {
+                // the request future is dropped where it stands when a Cancel command arrives
+                let res = tokio::select! {
+                    biased;
+                    r = lock.read() => Some(r),
+                    open = wait_cancel(&mut rx) => {
+                        if !open {
+                            return;
+                        }
+                        None
+                    }
+                };
+                let Some(res) = res else {
+                    sh.ev(Ev::CancelR(c));
+                    sh.set(c, St::Idle);
+                    continue;
+                };
+                match res {
                     Ok(g) => {
                         let v = *g;
                         sh.ev(Ev::RespR(c, v));
@@ -117,7 +158,22 @@ async fn actor(c: usize, lock: RwLock<u64>, mut rx: mpsc::UnboundedReceiver<Cmd>
             Cmd::Write => {
                 sh.ev(Ev::InvW(c));
                 sh.set(c, St::PendW);
-                match lock.write().await {
+                let res = tokio::select! {
+                    biased;
+                    r = lock.write() => Some(r),
+                    open = wait_cancel(&mut rx) => {
+                        if !open {
+                            return;
+                        }
+                        None
+                    }
+                };
+                let Some(res) = res else {
+                    sh.ev(Ev::CancelW(c));
+                    sh.set(c, St::Idle);
+                    continue;
+                };
+                match res {
                     Ok(mut g) => {
                         let v = *g;
                         sh.ev(Ev::RespW(c, v));
@@ -195,7 +251,11 @@ fn parse(inp: &[u128]) -> Option<Case> {
         return None;
     }
     let ops: Vec<(u128, usize, u64)> = rest.chunks(3).map(|c| (c[0], c[1] as usize, c[2] as u64)).collect();
-    if ops.iter().any(|o| o.0 > 5 || (o.0 < 5 && o.1 >= ncli)) {
+    if ops.iter().any(|o| o.0 > 6 || (o.0 != 5 && o.1 >= ncli)) {
+        return None;
+    }
+    // the model has no cancellation: a barriered case with one is not an acceptance case
+    if inp[0] == 0 && ops.iter().any(|o| o.0 == 6) {
         return None;
     }
     Some(Case { kind: inp[0], v0: inp[1] as u64, seed: inp[2] as u64, cache_of, ops })
@@ -212,8 +272,14 @@ struct Trace {
     setup_ok: bool,
 }
 
-fn valid(op: u128, st: St) -> bool {
-    matches!((op, st), (0, St::Idle) | (1, St::Idle) | (2, St::HoldR(_)) | (3, St::HoldW(_)) | (4, St::HoldW(_)))
+fn valid(kind: u128, op: u128, st: St) -> bool {
+    if kind == 4 && op == 6 {
+        return st == St::PendW;
+    }
+    matches!(
+        (op, st),
+        (0, St::Idle) | (1, St::Idle) | (2, St::HoldR(_)) | (3, St::HoldW(_)) | (4, St::HoldW(_)) | (6, St::PendR) | (6, St::PendW)
+    )
 }
 
 async fn run_case(c: &Case) -> Trace {
@@ -276,6 +342,7 @@ async fn run_case(c: &Case) -> Trace {
             1 => Cmd::Write,
             2 => Cmd::Release,
             3 => Cmd::Commit(arg),
+            6 => Cmd::Cancel,
             _ => Cmd::DropW,
         };
         // the status changes with the command so that a second command in a race case sees it
@@ -293,7 +360,7 @@ async fn run_case(c: &Case) -> Trace {
             }
             continue;
         }
-        if valid(op, sh.get(cl)) {
+        if valid(c.kind, op, sh.get(cl)) {
             // mark the status at once: the actor has not run yet
             match op {
                 0 => sh.set(cl, St::PendR),
@@ -303,7 +370,7 @@ async fn run_case(c: &Case) -> Trace {
             }
             send(op, cl, arg);
         }
-        if c.kind == 0 {
+        if c.kind == 0 || c.kind == 3 || c.kind == 4 {
             barrier().await;
             obs.push(sh.st.lock().unwrap().clone());
         }
@@ -355,6 +422,10 @@ async fn run_case(c: &Case) -> Trace {
 ///     committed at some instant between its invocation and its return, where commit k takes effect
 ///     between its invocation and its return;
 ///  P  progress: after all guards have been released no request is still pending.
+/// A cancelled request (its future dropped while pending, `CancelR`/`CancelW`) must be without any
+/// effect: it never holds a guard and commits nothing, so E, D, F, P are stated on the remaining
+/// events unchanged -- in particular a guard that was held when a request was cancelled still
+/// excludes every later write guard, and requests issued after a cancellation must still be served.
 fn oracle(c: &Case, t: &Trace) -> (String, bool) {
     if !t.setup_ok {
         return ("FAIL: could not set up the connection / move the locks".into(), false);
@@ -475,6 +546,8 @@ fn signature(c: &Case, t: &Trace, f5: bool) -> String {
     s.push_str(match c.kind {
         0 => "bar",
         1 => "race",
+        3 => "cbar",
+        4 => "wbar",
         _ => "mt",
     });
     let nk = c.cache_of.iter().max().unwrap() + 1;
@@ -522,6 +595,39 @@ fn signature(c: &Case, t: &Trace, f5: bool) -> String {
     }
     if t.obs.iter().any(|o| o.iter().any(|x| *x == St::PendR)) {
         s.push_str(":pr");
+    }
+    // cancellations that took effect: of a read / of a write; "g": while some guard was held;
+    // "n": a later request of any client was granted
+    let xr = cnt(&|e| matches!(e, Ev::CancelR(..)));
+    let xw = cnt(&|e| matches!(e, Ev::CancelW(..)));
+    if xr + xw > 0 {
+        s.push_str(&format!(":x{}{}", if xr > 0 { "r" } else { "" }, if xw > 0 { "w" } else { "" }));
+        let mut guards = 0usize;
+        let (mut xg, mut seen_x, mut xn) = (false, false, false);
+        for e in h.iter() {
+            match *e {
+                Ev::RespR(..) | Ev::RespW(..) => {
+                    guards += 1;
+                    if seen_x {
+                        xn = true;
+                    }
+                }
+                Ev::RelR(..) | Ev::InvC(..) | Ev::DropW(..) => guards = guards.saturating_sub(1),
+                Ev::CancelR(..) | Ev::CancelW(..) => {
+                    seen_x = true;
+                    if guards > 0 {
+                        xg = true;
+                    }
+                }
+                _ => {}
+            }
+        }
+        if xg {
+            s.push('g');
+        }
+        if xn {
+            s.push('n');
+        }
     }
     if t.fin.iter().any(|x| *x != St::Idle) {
         s.push_str(":stuck");
@@ -606,7 +712,7 @@ pub fn exec(inp: &[u128]) -> (Vec<u128>, Vec<u128>, String, String) {
     };
     let (verdict, f5) = oracle(&c, &t);
     let mut obs = Vec::new();
-    if c.kind == 0 {
+    if c.kind == 0 || c.kind == 4 {
         for o in &t.obs {
             for s in o {
                 st_nums(*s, &mut obs);
@@ -659,6 +765,11 @@ pub fn gen(r: &mut Rng, i: usize) -> Vec<Vec<u128>> {
         return vec![f5_script(k, wk, v)];
     }
     let race = i % 4 == 3;
+    // cancellation cases: every 8th case barriered ("cbar"), and half of the race cases
+    let cbar = i % 8 == 5;
+    // ... and every 8th barriered with cancellations of write requests only, accepted against the model
+    let wbar = i % 8 == 1;
+    let cancels = cbar || wbar || (race && r.chance(1, 2));
     let ncli = r.range(2, 4) as usize;
     let nk = match r.below(4) {
         0 => 1,
@@ -679,13 +790,107 @@ pub fn gen(r: &mut Rng, i: usize) -> Vec<Vec<u128>> {
             *x += 1;
         }
     }
+    if wbar {
+        // all clients on ONE cache (local or remote): with more than four requests in a case (clients
+        // are reused after a cancellation) write requests of different endpoints can pile up behind
+        // the full request channel (capacity 1) and then reach the owner in another order than they
+        // were invoked (a local sender overtakes a request still held by the remote forwarder); the
+        // model has one FIFO of write requests.  Requests over one path arrive in order.
+        let k = r.below(2);
+        for x in cache_of.iter_mut() {
+            *x = k;
+        }
+    }
     let v0 = r.range(1, 9);
     let nops = r.range(4, 18) as usize;
     // guessed status per client: 0 idle, 1 read requested, 2 write requested
     let mut guess = vec![0u8; ncli];
     let mut ops: Vec<(u64, u64, u64)> = Vec::new();
     let mut next_val = 100u64;
-    for _ in 0..nops {
+    // cancellation cases: a coarse simulation (one FIFO of requests, a write needs every guard
+    // gone, a read no write ahead of it) tells which requests are probably pending; those are
+    // cancelled 2 times out of 3, and further requests follow
+    let mut fifo: Vec<(usize, bool, bool)> = Vec::new(); // (client, write, granted)
+    fn regrant(fifo: &mut [(usize, bool, bool)]) {
+        let mut any_w = false;
+        let mut any = false;
+        for e in fifo.iter_mut() {
+            if !e.2 {
+                if e.1 {
+                    if any {
+                        break;
+                    }
+                    e.2 = true;
+                } else {
+                    if any_w {
+                        break;
+                    }
+                    e.2 = true;
+                }
+            }
+            any = true;
+            any_w |= e.1;
+        }
+    }
+    for _ in 0..(if cancels { nops } else { 0 }) {
+        let mut c = r.below(ncli as u64) as usize;
+        let mut pos = fifo.iter().position(|e| e.0 == c);
+        if let Some(p) = pos {
+            if !fifo[p].2 {
+                if (fifo[p].1 || !wbar) && r.chance(2, 3) {
+                    ops.push((6, c as u64, 0));
+                    fifo.remove(p);
+                    regrant(&mut fifo);
+                    if race {
+                        match r.below(4) {
+                            0 => ops.push((5, 0, 0)),
+                            1 => ops.push((5, 0, r.range(1, 4))),
+                            _ => {}
+                        }
+                    }
+                    continue;
+                }
+                // otherwise let a client that holds a guard go on
+                let held: Vec<usize> = fifo.iter().filter(|e| e.2).map(|e| e.0).collect();
+                if held.is_empty() {
+                    continue;
+                }
+                c = held[r.below(held.len() as u64) as usize];
+                pos = fifo.iter().position(|e| e.0 == c);
+            }
+        }
+        match pos {
+            None => {
+                let w = !r.chance(3, 5);
+                ops.push((w as u64, c as u64, 0));
+                fifo.push((c, w, false));
+            }
+            Some(p) => {
+                if r.chance(1, 12) {
+                    // a cancellation that comes too late: skipped
+                    ops.push((6, c as u64, 0));
+                }
+                if !fifo[p].1 {
+                    ops.push((2, c as u64, 0));
+                } else if r.chance(3, 4) {
+                    next_val += 1;
+                    ops.push((3, c as u64, next_val));
+                } else {
+                    ops.push((4, c as u64, 0));
+                }
+                fifo.remove(p);
+            }
+        }
+        regrant(&mut fifo);
+        if race {
+            match r.below(4) {
+                0 => ops.push((5, 0, 0)),
+                1 => ops.push((5, 0, r.range(1, 4))),
+                _ => {}
+            }
+        }
+    }
+    for _ in 0..(if cancels { 0 } else { nops }) {
         let c = r.below(ncli as u64) as usize;
         match guess[c] {
             0 => {
@@ -720,7 +925,14 @@ pub fn gen(r: &mut Rng, i: usize) -> Vec<Vec<u128>> {
         }
     }
     let seed = if race && r.chance(2, 3) { r.next() | 1 } else { 0 };
-    let mut v: Vec<u128> = vec![race as u128, v0 as u128, seed as u128, ncli as u128];
+    let kind: u128 = if cbar {
+        3
+    } else if wbar {
+        4
+    } else {
+        race as u128
+    };
+    let mut v: Vec<u128> = vec![kind, v0 as u128, seed as u128, ncli as u128];
     v.extend(cache_of.iter().map(|x| *x as u128));
     v.push(ops.len() as u128);
     for (o, c, a) in ops {
